@@ -71,6 +71,9 @@ class DumperBase(DataStreamProcessor):
             yield row
         DumperBase.inc_attr(self.datapackage.descriptor, self.datapackage_rowcount, counter)
         DumperBase.inc_attr(resource.res.descriptor, self.resource_rowcount, counter)
+        for descriptor in self.datapackage.descriptor['resources']:
+            if descriptor is not resource.res.descriptor and descriptor['name'] == resource.res.descriptor['name']:
+                DumperBase.inc_attr(descriptor, self.resource_rowcount, counter)
         resource.res.commit()
         self.datapackage.commit()
 
